@@ -31,6 +31,35 @@ type internalHandler struct {
 	filter         any // Predicate function for filtering events
 	mu             sync.Mutex
 	executed       uint32 // For once handlers, atomically tracks if executed
+
+	// Turn-taking for async sequential handlers: each dispatch takes a ticket in
+	// the publisher, the goroutine runs when its ticket is being served
+	seqMu      sync.Mutex
+	seqCond    *sync.Cond
+	seqTickets uint64 // next ticket to hand out
+	seqServing uint64 // ticket whose turn it is
+}
+
+// awaitTurn blocks until the given ticket is being served
+func (h *internalHandler) awaitTurn(ticket uint64) {
+	h.seqMu.Lock()
+	if h.seqCond == nil {
+		h.seqCond = sync.NewCond(&h.seqMu)
+	}
+	for h.seqServing != ticket {
+		h.seqCond.Wait()
+	}
+	h.seqMu.Unlock()
+}
+
+// endTurn passes the turn on to the next ticket
+func (h *internalHandler) endTurn() {
+	h.seqMu.Lock()
+	h.seqServing++
+	if h.seqCond != nil {
+		h.seqCond.Broadcast()
+	}
+	h.seqMu.Unlock()
 }
 
 // PanicHandler is called when a handler panics
@@ -390,9 +419,20 @@ func PublishContext[T any](bus *EventBus, ctx context.Context, event T) {
 		if h.async {
 			wg.Add(1)
 			bus.wg.Add(1)
+			// Sequential async handlers process events in the order they were
+			// published: the ticket is taken here, in the publisher
+			var ticket uint64
+			if h.sequential {
+				ticket = atomic.AddUint64(&h.seqTickets, 1) - 1
+			}
 			go func(handler *internalHandler) {
 				defer wg.Done()
 				defer bus.wg.Done()
+
+				if handler.sequential {
+					handler.awaitTurn(ticket)
+					defer handler.endTurn()
+				}
 
 				// Check context before executing
 				select {
